@@ -135,6 +135,20 @@ def run(repo, rep, tier):
         rep.finding("R17.2", call, base_call or call.node, "the miss path does not call `super().__call__(*args, **kwds)` with the "
                     "arguments unchanged: the cached wrapper returns something other than the underlying function",
                     stmt="base call on miss")
+    # argument comparisons in the hit condition use exact, shape-sensitive equalities only (enumerated idioms, one reason each)
+    EXACT = {"array_equal": "numpy: same shape and same elements"}
+    for cl in ast.walk(test.ast):
+        if isinstance(cl, ast.Call) and isinstance(cl.func, ast.Attribute) and cl.func.attr not in ("keys",) and \
+                ast.unparse(cl.func).split(".")[0] in ("np", "numpy", "self"):
+            nm = cl.func.attr
+            if nm in ("lastArgs", "lastKwds"):
+                continue
+            ok = nm in EXACT
+            r2.ob(ok, f"argument comparison through {ast.unparse(cl.func)}")
+            if not ok:
+                rep.finding("R17.2", call, test.stmt, f"the hit condition compares arguments with `{ast.unparse(cl.func)}`, which is not an exact, "
+                            f"shape-sensitive equality (accepted: identity, ==, np.array_equal): arguments that merely broadcast or are "
+                            f"close hit the cache and the previous result is returned", stmt=f"comparator {nm}")
     # ---------------- R17.3 wrapper table
     for nm in ("serializable", "cached", "named"):
         if nm not in um.functions:
@@ -154,6 +168,26 @@ def run(repo, rep, tier):
     if not (ok and stores_fcn):
         rep.finding("R17.4", uc, uc.node, "compilation of the string expression is not guarded by `if not hasattr(self, 'fcn')` with a "
                     "store to self.fcn", stmt="compile-once guard")
+    # the namespace a string expression is evaluated in is built afresh on every call (no state from earlier records)
+    for inner in ast.walk(uc.node):
+        if isinstance(inner, ast.FunctionDef) and inner is not uc.node:
+            for cl in ast.walk(inner):
+                if isinstance(cl, ast.Call) and isinstance(cl.func, ast.Name) and cl.func.id == "eval" and len(cl.args) >= 2:
+                    ns = cl.args[1]
+                    fresh = False
+                    if isinstance(ns, ast.Name):
+                        for a in ast.walk(inner):
+                            if isinstance(a, ast.Assign) and any(isinstance(t, ast.Name) and t.id == ns.id for t in a.targets):
+                                v = a.value
+                                fresh = (isinstance(v, ast.Call) and ((isinstance(v.func, ast.Name) and v.func.id == "dict") or (
+                                    isinstance(v.func, ast.Attribute) and v.func.attr == "copy"))) or isinstance(v, (ast.Dict, ast.DictComp))
+                    elif isinstance(ns, (ast.Dict, ast.DictComp)) or (isinstance(ns, ast.Call) and ast.unparse(ns.func) == "dict"):
+                        fresh = True
+                    r4.ob(fresh, f"eval namespace `{ast.unparse(ns)}` is a fresh dict per call")
+                    if not fresh:
+                        rep.finding("R17.4", uc, cl, f"the namespace `{ast.unparse(ns)}` passed to eval() is not created inside the per-datum "
+                                    f"function: fields of one record stay visible to the evaluation of the next (a string quantity no "
+                                    f"longer evaluates like the equivalent function)", stmt="eval namespace shared across calls")
     rets = [n for n in walk_local_stmt(uc.node) if isinstance(n, ast.Return) and n.value is not None and isinstance(n.value, ast.Call)
             and ast.unparse(n.value.func) == f"{sn}.fcn"]
     a = uc.node.args
